@@ -629,7 +629,7 @@ let render_outs l = String.concat "," (List.map (function
 let va_fn_id = function
   | "mt_from" -> 0 | "mt_new" -> 1 | "method" -> 2 | "class" -> 3 | "family" -> 4 | "algid" -> 5 | "errcode" -> 6
   | "icmptype" -> 7 | "icmpcode" -> 8 | "attrtype" -> 9 | "changereq" -> 10 | "padding" -> 11 | "chan" -> 12
-  | "respport" -> 13 | "lifetime" -> 14 | "evenport" -> 15 | "icmp" -> 16 | "ctxpad" -> 17
+  | "respport" -> 13 | "lifetime" -> 14 | "evenport" -> 15 | "icmp" -> 16 | "ctxpad" -> 17 | "reqtransport" -> 18
   | s -> failwith ("value function " ^ s)
 let va_res f = function VOk a -> f a | VErr -> "E" | VPanic -> "PANIC" | VUnmodelled -> "UNMODELLED"
 let va_ok_hex r = va_res (fun b -> "OK " ^ hex_of_bytes b) r
